@@ -439,6 +439,10 @@ def same(tval, val):
 
 
 CATALOGUE = [
+    # a scoped activation made while globally active survives the global deactivate
+    {'conns': [[['activate', None, 0], ['activate', 'm0', 0], ['deactivate', None, 0.5], ['ping', None, 3.0]],
+               [['activate', 'm0:_a', 0], ['activate', None, 0.5], ['deactivate', None, 0.5], ['ping', None, 3.0]]],
+     'drivers': [[['assign', 'm0', 'a', 0.5], ['assign', 'm0', 'a', 1.0], ['assign', 'm0', 'b', 0.5]]]},
     # a module whose name is a proper prefix of another module's name: deactivating the shorter leaves the longer subscribed
     {'conns': [[['activate', 'm0x', 0], ['activate', 'm0', 0], ['deactivate', 'm0', 1.0], ['ping', None, 3.0]]],
      'drivers': [[['assign', 'm0x', 'a', 0.5], ['assign', 'm0x', 'a', 1.5], ['assign', 'm0', 'a', 0]]]},
